@@ -364,6 +364,52 @@ Fixpoint inproc_loop (fine : list conf) (i : nat) (p : path) (step : nat) : poll
   end.
 End Inproc.
 
+(* ------------------------------------------------------------------ calculate_order: overrides or the file *)
+(* EngineBase.calculate_order(system, xyz=None, vel=None, box=None):
+     if any((xyz is None, vel is None, box is None)):
+         xyz, vel, box = self._read_configuration(system.config[0])[:3]
+     if xyz is not None: system.pos = xyz
+     if vel is not None: system.vel = vel * -1.0 if system.vel_rev else vel
+     if box is not None: system.box = box
+     return self.order_function.calculate(system)
+   ONE missing override makes the call ignore the other two and use the configuration FILE the
+   System points to.  [file] is what _read_configuration returns for system.config[0]; its box is
+   optional (the comment line of an xyz snapshot need not carry a "Box:" entry); [sysbox] is
+   system.box before the call (it stays when neither an override nor the file provides a box). *)
+Record fconf := mkFC { fc_pos : Z; fc_vel : Z; fc_box : option Z }.
+
+Definition calculate_order_args (vel_rev : bool) (xyz vel box : option Z) (file : fconf) (sysbox : Z) : Z :=
+  match xyz, vel, box with
+  | Some x, Some v, Some b => calc_order vel_rev x v b
+  | _, _, _ => calc_order vel_rev (fc_pos file) (fc_vel file)
+                 (match fc_box file with Some b => b | None => sysbox end)
+  end.
+
+(* The in-process loop with its call site spelled out: inside the loop system.config[0] is still
+   the INITIAL configuration file [init] (propagate() has pointed the System to it), the state of
+   the current step is handed over as overrides,
+       order = self.calculate_order(system, xyz=<pos of c>, vel=<vel of c>, box=<boxarg c>)
+   (TurtleMD: box = tmd_system.box.length, ASE: box = atoms.cell.diagonal(), never None). *)
+Section InprocArgs.
+Variable s : nat.
+Variable boxarg : conf -> option Z.
+Variable init : fconf.
+Variable sysbox : Z.
+Fixpoint inproc_loop_args (fine : list conf) (i : nat) (p : path) (step : nat) : poll_result :=
+  match fine with
+  | [] => Trunc p PNone
+  | c :: r =>
+      if (i mod s =? 0)%nat then
+        let o := calculate_order_args rv (Some (cpos c)) (Some (cvel c)) (boxarg c) init sysbox in
+        match add_to_path_x fx p (snapshot o step) left right with
+        | None => IdxError
+        | Some (p1, success, stop, _) =>
+            if stop then Ret p1 success PNone else inproc_loop_args r (S i) p1 (S step)
+        end
+      else inproc_loop_args r (S i) p step
+  end.
+End InprocArgs.
+
 End Poll.
 
 (* ------------------------------------------------------------------ specification side *)
